@@ -631,6 +631,17 @@ class CursorClient(Client):
         c = self.is_pos(stmt.target)
         if c is not None:
             k = _const_move(self.p, self.f, stmt.value)
+            if k is None and isinstance(stmt.value, ast.IfExp) and isinstance(stmt.op, (ast.Add, ast.Sub)):
+                # pos += a if cond else b: one state per alternative (the condition is evaluated for its cursor facts)
+                ka, kb = _const_move(self.p, self.f, stmt.value.body), _const_move(self.p, self.f, stmt.value.orelse)
+                if ka is not None and kb is not None:
+                    out = []
+                    ts, fs = it.cond(stmt.value.test, s)
+                    for alt, states in ((stmt.value.body, ts), (stmt.value.orelse, fs)):
+                        for st_ in states:
+                            fake = ast.copy_location(ast.AugAssign(target=stmt.target, op=stmt.op, value=alt), stmt)
+                            out += self.augassign(it, st_, fake)
+                    return out
             if k is None or not isinstance(stmt.op, (ast.Add, ast.Sub)):
                 return [self.unknown_move(s, c)]
             k = k if isinstance(stmt.op, ast.Add) else -k
